@@ -1,8 +1,8 @@
 #!/bin/sh
-# tools/seeded_store.sh <Cxx> <name> : copy a confirmed seeded change from /tmp/seed8/<Cxx>-out into /verif/seeded/<Cxx>-<name>/
+# tools/seeded_store.sh <Cxx> <name> : copy a confirmed seeded change from /tmp/seed9/<Cxx>-out into /verif/seeded/<Cxx>-<name>/
 # (patch, demonstration without build output, notes, outputs); meta.json is written by hand afterwards.
 set -e
-src=/tmp/seed8/$1-out ; dst=/verif/seeded/$1-$2
+src=/tmp/seed9/$1-out ; dst=/verif/seeded/$1-$2
 mkdir -p "$dst"
 cp "$src/patch.diff" "$dst/patch.diff"
 if [ -f "$src/NOTES.md" ]; then cp "$src/NOTES.md" "$dst/NOTES.md"; fi
